@@ -386,7 +386,8 @@ def axis_level(tier, seed, violations, cov, jobs):
     run(CLONE, cvals, "clone", lambda c: {1: "clone does not evaluate like the axis under the substitution", 10: "differs from model", 13: "model failed"}.get(c, "?"), "c06clone")
     run(PRODUCT, pvals, "productAxis", lambda c: {1: "not the product of the factors", 10: "differs from model"}.get(c, "?"), "c06prod")
     cov["axis_level"] = dict(cases=hist, single_axes_exhaustive=len(singles), two_dim_patterns_enumerated=n_exh_pats,
-                             same_type_axis_pairs_enumerated=n_exh_pairs, kernel_reevaluated=kern)
+                             same_type_axis_pairs_enumerated=n_exh_pairs, kernel_reevaluated=kern,
+                             unify_refinement_pairs=dict(generated=len(rpairs), rule="patterns over dimensions of product types (flat atom lists), every axis a grouping of consecutive atoms into one PhysicalAxis per block, block axes shared between dimensions; half of them BOUND-THEN-SPLIT: a block axis that an earlier pair of the same unify call has bound is the last factor of a later dimension and meets a product with a smaller last factor (sides swapped / dimensions reversed at random); judged by the brute-force coincidence oracle and compared with the model"))
     return sum(hist.values()), len({repr(v[:2]) for v in uvals if any(e[0] != "Phys" for e in v[0] + v[1])})
 
 def run_jobs(jobs, seed):
